@@ -105,6 +105,11 @@ def verify_unit(modname, tier="quick", seed=None, rlimit=None, canaries=True, ta
         res.undecided_reason = "lost anchor: %s" % e
         res.wall_s = time.time() - t0
         return res
+    except Exception as e:  # a bug in the unit description must never look like a verdict about /repo
+        res.status = "undecided"
+        res.undecided_reason = "unit description error: %r" % (e,)
+        res.wall_s = time.time() - t0
+        return res
     base = res.name.replace(".", "_")
     path = os.path.join(BUILD, base + ".rs")
     with open(path, "w", encoding="utf-8") as fh:
